@@ -182,19 +182,42 @@ fn call_generic<C: Ctxt>(fr: Frame<C>, in_fn: bool, body: impl FnOnce() -> Leave
 }
 
 impl M03 {
-    fn new(stores: &[u64]) -> M03 {
-        let mut fresh: HashMap<u64, ThreadLocalCtxt> = HashMap::new();
-        let insts = stores
-            .iter()
-            .map(|s| {
-                if *s == 0 {
-                    Inst::new(ThreadLocalCtxt::shared())
-                } else {
-                    Inst::new(*fresh.entry(*s).or_insert_with(ThreadLocalCtxt::new))
+    /// `insts`: per context instance its storage id in the specification and how it is obtained
+    /// ("new" | "shared" | "default" | "setup").  Instances with the same non-zero storage id are
+    /// copies of one instance; everything else is constructed separately - whether two of them
+    /// alias is exactly what is being checked.
+    fn new(insts: &[(u64, String)]) -> M03 {
+        let mut made: HashMap<u64, Inst> = HashMap::new();
+        let mut out = Vec::new();
+        for (store, kind) in insts {
+            if *store != 0 {
+                if let Some(i) = made.get(store) {
+                    out.push(Inst::new(i.tl));
+                    continue;
                 }
-            })
-            .collect();
-        M03 { insts, frames: Mutex::new(HashMap::new()), tasks: Mutex::new(HashMap::new()), salt: AtomicU64::new(0) }
+            }
+            let inst = match kind.as_str() {
+                "shared" => Inst::new(ThreadLocalCtxt::shared()),
+                "new" => Inst::new(ThreadLocalCtxt::new()),
+                "default" => Inst::new(<ThreadLocalCtxt as Default>::default()),
+                "setup" => {
+                    // the context of a runtime built the way applications do, in a fresh slot
+                    let slot: &'static emit::runtime::AmbientSlot = Box::leak(Box::new(emit::runtime::AmbientSlot::new()));
+                    let init = emit::setup().init_slot(slot);
+                    let tl_ref: &'static ThreadLocalCtxt = init.ctxt();
+                    let mut i = Inst::new(*tl_ref);
+                    i.tl_ref = tl_ref;
+                    i.erased = *slot.get().ctxt();
+                    i
+                }
+                other => tool_error(&format!("instance kind {other}")),
+            };
+            if *store != 0 {
+                made.insert(*store, Inst::new(inst.tl));
+            }
+            out.push(inst);
+        }
+        M03 { insts: out, frames: Mutex::new(HashMap::new()), tasks: Mutex::new(HashMap::new()), salt: AtomicU64::new(0) }
     }
 
     fn salt(&self) -> u64 {
@@ -374,7 +397,17 @@ fn main() {
     }
     let (cases, stores, out) = (args[1].clone(), args[2].clone(), args[3].clone());
     quiet_panics();
-    let stores: Vec<u64> = serde_json::from_str(&stores).unwrap_or_else(|e| tool_error(&format!("stores: {e}")));
+    let stores: Value = serde_json::from_str(&stores).unwrap_or_else(|e| tool_error(&format!("stores: {e}")));
+    // [{"store": n, "kind": k}] (or plain storage ids: 0 = shared(), other = new())
+    let stores: Vec<(u64, String)> = stores
+        .as_array()
+        .unwrap_or_else(|| tool_error("stores: not an array"))
+        .iter()
+        .map(|v| match v.as_u64() {
+            Some(n) => (n, if n == 0 { "shared".to_string() } else { "new".to_string() }),
+            None => (v["store"].as_u64().unwrap_or_else(|| tool_error("stores: store")), v["kind"].as_str().unwrap_or_else(|| tool_error("stores: kind")).to_string()),
+        })
+        .collect();
     let rep = drive(
         &cases,
         workers_from_env(),
